@@ -1173,3 +1173,466 @@ Qed.
 
 Lemma Inv_exit K cl A : Inv K A -> ix_exit (K, cl) = K.
 Proof. intros H. unfold ix_exit. simpl. destruct cl; [now apply (Inv_prune K A)|reflexivity]. Qed.
+
+(* ---------------------------------------------------------------- commands *)
+Lemma ar_del_all_In V : forall A f, In f (ar_del_all V A) <-> In f A /\ ~ In (f_bid f) V.
+Proof.
+  unfold ar_del_all. induction V as [|b V IH]; intros A f; simpl; [tauto|].
+  rewrite IH. unfold ar_del. rewrite filter_In, negb_true_iff, str_eqb_neq. intuition.
+Qed.
+
+Lemma victims_of_In J keep b : In b (victims_of J keep) <-> In b (build_ids J) /\ ~ In b keep.
+Proof. unfold victims_of. rewrite filter_In, negb_true_iff, bmem_false. tauto. Qed.
+
+Definition mk_obs (s : status) (na l : list bid) : obs := {| o_status := s; o_noaudit := na; o_list := l |}.
+
+(* what a command does once the index K to work on is fixed (no __exit__ pruning) *)
+Definition finish (c : cmd) (K : index) (A : archive) (na : list bid) : obs * index * archive :=
+  match c with
+  | CScan _ => (mk_obs SOk na [], K, A)
+  | CFind _ _ es =>
+    match query K es with
+    | Err => (mk_obs SErr na [], K, A)
+    | Ok ret => (mk_obs SOk na (usort ret), K, A)
+    end
+  | CClean dry _ _ es =>
+    match query K es with
+    | Err => (mk_obs SErr na [], K, A)
+    | Ok ret =>
+      match closure K ret with
+      | None => (mk_obs SFuel na [], K, A)
+      | Some keep =>
+        if dry then (mk_obs SOk na (victims_of K keep), K, A)
+        else (mk_obs SOk na [], fold_left (fun J b => ix_remove b J) (victims_of K keep) K,
+              ar_del_all (victims_of K keep) A)
+      end
+    end
+  end.
+
+Lemma ar_find_del b0 A b :
+  ar_find b (ar_del b0 A) = if str_eqb b b0 then None else ar_find b A.
+Proof.
+  unfold ar_find, ar_del. induction A as [|f A IH]; simpl; [now destruct (str_eqb b b0)|].
+  destruct (str_eqb (f_bid f) b0) eqn:E; simpl.
+  - rewrite IH. apply str_eqb_eq in E. destruct (str_eqb b b0) eqn:E2; [reflexivity|].
+    destruct (str_eqb (f_bid f) b) eqn:E3; [|reflexivity].
+    apply str_eqb_eq in E3. apply str_eqb_neq in E2. congruence.
+  - destruct (str_eqb (f_bid f) b) eqn:E3.
+    + apply str_eqb_eq in E3. subst b. now rewrite E.
+    + exact IH.
+Qed.
+
+Lemma wf_del b A : wf A -> wf (ar_del b A).
+Proof.
+  unfold wf, ar_del, ar_bids. induction A as [|f A IH]; simpl; intros H; [constructor|].
+  inversion H as [|? ? Hn Hd]; subst. destruct (negb (str_eqb (f_bid f) b)); simpl; auto.
+  constructor; auto. intros Hin. apply Hn. apply in_map_iff in Hin as (g & Hg & Hin).
+  apply filter_In in Hin as [Hin _]. apply in_map_iff. eauto.
+Qed.
+
+Lemma wf_put f A : wf A -> wf (ar_put f A).
+Proof.
+  intros H. unfold ar_put, wf. simpl. constructor.
+  - intros Hin. apply in_map_iff in Hin as (g & Hg & Hin). apply filter_In in Hin as [_ Hin].
+    rewrite negb_true_iff, str_eqb_neq in Hin. congruence.
+  - exact (wf_del (f_bid f) A H).
+Qed.
+
+Lemma Inv_remove b K A : Inv K A -> Inv (ix_remove b K) (ar_del b A).
+Proof.
+  intros [F R S T]. split.
+  - simpl. now apply rows_sorted_filter.
+  - intros b'. rewrite ix_remove_row, R, !rowspec_eq, ar_find_del. now destruct (str_eqb b' b).
+  - simpl. now apply sorted_filter.
+  - intros b' r. rewrite ix_remove_ref, T, !refspec_eq, ar_find_del.
+    destruct (str_eqb b' b) eqn:E.
+    + apply str_eqb_eq in E. simpl. tauto.
+    + apply str_eqb_neq in E. tauto.
+Qed.
+
+Lemma Inv_remove_all V : forall K A, Inv K A ->
+  Inv (fold_left (fun J b => ix_remove b J) V K) (ar_del_all V A).
+Proof.
+  unfold ar_del_all. induction V as [|b V IH]; intros K A H; simpl; [exact H|].
+  apply IH. now apply Inv_remove.
+Qed.
+
+Lemma wf_del_all V : forall A, wf A -> wf (ar_del_all V A).
+Proof.
+  unfold ar_del_all. induction V as [|b V IH]; intros A H; simpl; [exact H|]. apply IH. now apply wf_del.
+Qed.
+
+Definition cmd_fail (c : cmd) : bool :=
+  match c with CScan f => f | CFind _ f _ => f | CClean _ _ f _ => f end.
+
+Lemma run_cmd_scanning c I A K A1 :
+  scanning c = true -> fst (scan (I, false) A) = K -> Inv K A1 ->
+  (forall V, Inv (fold_left (fun J b => ix_remove b J) V K) (ar_del_all V A1)) ->
+  run_cmd c I A =
+  if cmd_fail c && negb (found A) then (mk_obs SExit (noaudit_of A) [], K, A)
+  else finish c K A (noaudit_of A).
+Proof.
+  intros Hsc HK Hinv Hrem.
+  destruct (scan (I, false) A) as [K' cl] eqn:Es. simpl in HK. subst K'.
+  pose proof (Inv_exit K cl A1 Hinv) as Hex.
+  destruct c as [fail|noscan fail es|dry noscan fail es]; simpl in Hsc; unfold run_cmd, do_scan, finish, cmd_fail;
+    try (apply negb_true_iff in Hsc; subst noscan); rewrite Es; cbn [fst snd].
+  - rewrite Hex. destruct (fail && negb (found A)); reflexivity.
+  - destruct (fail && negb (found A)); [now rewrite Hex|].
+    destruct (query K es); now rewrite Hex.
+  - destruct (fail && negb (found A)); [now rewrite Hex|].
+    destruct (query K es) as [ret|]; [|now rewrite Hex].
+    destruct (closure K ret) as [keep|]; [|now rewrite Hex].
+    destruct dry; [now rewrite Hex|].
+    rewrite (Inv_exit _ _ _ (Hrem (victims_of K keep))). reflexivity.
+Qed.
+
+Lemma run_cmd_noscan c I A A0 :
+  scanning c = false -> Inv I A0 -> run_cmd c I A = finish c I A [].
+Proof.
+  intros Hsc Hinv. pose proof (Inv_exit I false A0 Hinv) as Hex.
+  destruct c as [fail|noscan fail es|dry noscan fail es]; simpl in Hsc; try discriminate;
+    apply negb_false_iff in Hsc; subst noscan; unfold run_cmd, do_scan, finish; cbn [fst snd].
+  - destruct (query I es); now rewrite Hex.
+  - destruct (query I es) as [ret|]; [|now rewrite Hex].
+    destruct (closure I ret) as [keep|]; [|now rewrite Hex].
+    destruct dry; [now rewrite Hex|].
+    rewrite (Inv_exit _ _ _ (Inv_remove_all (victims_of I keep) I A0 Hinv)). reflexivity.
+Qed.
+
+(* one command: the result does not depend on the index it starts from *)
+Theorem cmd_index_transparent c I A0 A :
+  scanning c = true -> Inv I A0 -> wf A0 -> wf A -> compat A0 A ->
+  run_cmd c I A = run_cmd c ix_empty A.
+Proof.
+  intros Hsc Hinv Hwf0 Hwf Hc.
+  pose proof (scan_Inv I false A0 A Hinv Hwf0 Hwf Hc) as HK.
+  rewrite (run_cmd_scanning c I A _ A Hsc eq_refl HK (fun V => Inv_remove_all V _ _ HK)).
+  rewrite (scan_canonical I false false A0 A Hinv Hwf0 Hwf Hc) in *.
+  symmetry. apply (run_cmd_scanning c ix_empty A _ A Hsc eq_refl HK (fun V => Inv_remove_all V _ _ HK)).
+Qed.
+
+(* ---------------------------------------------------------------- histories *)
+Record hinv (hall : list event) (I : index) (A A0 : archive) : Prop := {
+  hi_wf : wf A;
+  hi_wf0 : wf A0;
+  hi_inv : Inv I A0;
+  hi_put : forall f, In f A -> In (EPut f) hall;
+  hi_put0 : forall f, In f A0 -> In (EPut f) hall
+}.
+
+Lemma hinv_compat hall I A A0 : stat_faithful hall -> hinv hall I A A0 -> compat A0 A.
+Proof. intros Hsf [_ _ _ H1 H2] g f Hg Hf. apply Hsf; auto. Qed.
+
+Lemma finish_effect c K A na o K' A' :
+  finish c K A na = (o, K', A') ->
+  exists V, A' = ar_del_all V A /\ K' = fold_left (fun J b => ix_remove b J) V K.
+Proof.
+  unfold finish. destruct c as [fail|noscan fail es|dry noscan fail es].
+  - intros [= _ <- <-]. now exists [].
+  - destruct (query K es); intros [= _ <- <-]; now exists [].
+  - destruct (query K es) as [ret|]; [|intros [= _ <- <-]; now exists []].
+    destruct (closure K ret) as [keep|]; [|intros [= _ <- <-]; now exists []].
+    destruct dry; intros [= _ <- <-]; [now exists []|]. now exists (victims_of K keep).
+Qed.
+
+Lemma hinv_del_all hall V K A A0 :
+  hinv hall K A A0 ->
+  hinv hall (fold_left (fun J b => ix_remove b J) V K) (ar_del_all V A) (ar_del_all V A0).
+Proof.
+  intros [H1 H2 H3 H4 H5]. split.
+  - now apply wf_del_all.
+  - now apply wf_del_all.
+  - now apply Inv_remove_all.
+  - intros f Hf. apply ar_del_all_In in Hf. now apply H4.
+  - intros f Hf. apply ar_del_all_In in Hf. now apply H5.
+Qed.
+
+Lemma hinv_cmd hall c I A A0 o I' A' :
+  stat_faithful hall -> hinv hall I A A0 -> run_cmd c I A = (o, I', A') ->
+  exists A0', hinv hall I' A' A0'.
+Proof.
+  intros Hsf Hh Hrun. pose proof (hinv_compat _ _ _ _ Hsf Hh) as Hc.
+  destruct Hh as [Hwf Hwf0 Hinv Hput Hput0].
+  destruct (scanning c) eqn:Hsc.
+  - pose proof (scan_Inv I false A0 A Hinv Hwf0 Hwf Hc) as HK.
+    rewrite (run_cmd_scanning c I A _ A Hsc eq_refl HK (fun V => Inv_remove_all V _ _ HK)) in Hrun.
+    assert (hinv hall (fst (scan (I, false) A)) A A) as Hh' by (split; auto).
+    destruct (cmd_fail c && negb (found A)).
+    + inversion Hrun; subst. now exists A'.
+    + apply finish_effect in Hrun as (V & -> & ->). exists (ar_del_all V A). now apply hinv_del_all.
+  - rewrite (run_cmd_noscan c I A A0 Hsc Hinv) in Hrun.
+    apply finish_effect in Hrun as (V & -> & ->). exists (ar_del_all V A0). apply hinv_del_all. now split.
+Qed.
+
+Lemma hist_state_hinv hall h : forall I A A0,
+  stat_faithful hall -> incl h hall -> hinv hall I A A0 ->
+  exists A0', hinv hall (fst (hist_state I A h)) (snd (hist_state I A h)) A0'.
+Proof.
+  induction h as [|e h IH]; intros I A A0 Hsf Hincl Hh; simpl.
+  - now exists A0.
+  - assert (incl h hall) as Hincl' by (intros x Hx; apply Hincl; now right).
+    destruct e as [f|b|c].
+    + apply (IH I (ar_put f A) A0 Hsf Hincl'). destruct Hh as [H1 H2 H3 H4 H5]. split; auto.
+      * now apply wf_put.
+      * intros g [<-|Hg]; [apply Hincl; now left|]. apply filter_In in Hg as [Hg _]. auto.
+    + apply (IH I (ar_del b A) A0 Hsf Hincl'). destruct Hh as [H1 H2 H3 H4 H5]. split; auto.
+      * now apply wf_del.
+      * intros g Hg. apply filter_In in Hg as [Hg _]. auto.
+    + destruct (run_cmd c I A) as [[o I'] A'] eqn:E.
+      destruct (hinv_cmd hall c I A A0 o I' A' Hsf Hh E) as (A0' & Hh').
+      apply (IH I' A' A0' Hsf Hincl' Hh').
+Qed.
+
+Lemma hinv_init hall : hinv hall ix_empty [] [].
+Proof. split; try apply wf_nil; try apply Inv_empty; intros f []. Qed.
+
+(* The result of a scanning command after any history of uploads, removals,
+   in-place replacements and earlier commands (with or without -n) is the
+   result on a freshly built index. *)
+Theorem index_transparent_proof : forall h c,
+  stat_faithful h -> scanning c = true ->
+  run_cmd c (fst (hist_state ix_empty [] h)) (snd (hist_state ix_empty [] h)) =
+  run_cmd c ix_empty (snd (hist_state ix_empty [] h)).
+Proof.
+  intros h c Hsf Hsc.
+  destruct (hist_state_hinv h h ix_empty [] [] Hsf (incl_refl _) (hinv_init h)) as (A0 & Hh).
+  pose proof (hinv_compat _ _ _ _ Hsf Hh) as Hc. destruct Hh as [H1 H2 H3 _ _].
+  now apply (cmd_index_transparent c _ A0).
+Qed.
+
+(* -n: the command behaves as the scanning command would have behaved on the
+   archive as it was when the index was last brought up to date; the artifacts
+   chosen there are deleted from the present archive *)
+Theorem noscan_uses_last_scan_proof : forall c I A A0,
+  scanning c = false -> Inv I A0 -> wf A0 ->
+  exists V,
+    run_cmd c I A =
+      (mk_obs (o_status (fst (fst (run_cmd (with_scan c) ix_empty A0)))) []
+              (o_list (fst (fst (run_cmd (with_scan c) ix_empty A0)))),
+       snd (fst (run_cmd (with_scan c) ix_empty A0)),
+       ar_del_all V A) /\
+    snd (run_cmd (with_scan c) ix_empty A0) = ar_del_all V A0 /\
+    Inv (snd (fst (run_cmd (with_scan c) ix_empty A0))) (ar_del_all V A0).
+Proof.
+  intros c I A A0 Hsc Hinv Hwf.
+  rewrite (run_cmd_noscan c I A A0 Hsc Hinv).
+  assert (fst (scan (ix_empty, false) A0) = I) as HK.
+  { eapply Inv_unique; [|exact Hinv]. eapply scan_Inv; [apply Inv_empty|apply wf_nil|exact Hwf|apply compat_nil]. }
+  assert (scanning (with_scan c) = true) as Hsc' by (destruct c; reflexivity).
+  rewrite (run_cmd_scanning (with_scan c) ix_empty A0 I A0 Hsc' HK Hinv (fun V => Inv_remove_all V _ _ Hinv)).
+  assert (cmd_fail (with_scan c) = false) as -> by (destruct c; reflexivity). simpl andb. cbv iota.
+  destruct c as [fail|noscan fail es|dry noscan fail es]; simpl in Hsc; try discriminate; unfold with_scan, finish.
+  - destruct (query I es); exists []; simpl; auto.
+  - destruct (query I es) as [ret|]; [|exists []; simpl; auto].
+    destruct (closure I ret) as [keep|]; [|exists []; simpl; auto].
+    destruct dry; [exists []; simpl; auto|].
+    exists (victims_of I keep). simpl. split; [reflexivity|]. split; [reflexivity|]. now apply Inv_remove_all.
+Qed.
+
+(* ---------------------------------------------------------------- what clean / find do *)
+Lemma clean_effect dry noscan fail es I A o I' A' :
+  run_cmd (CClean dry noscan fail es) I A = (o, I', A') -> o_status o = SOk ->
+  exists sel keep,
+    query (qix noscan I A) es = Ok sel /\
+    (forall x, In x keep <-> reach (qix noscan I A) sel x) /\
+    o_list o = (if dry then victims_of (qix noscan I A) keep else []) /\
+    A' = (if dry then A else ar_del_all (victims_of (qix noscan I A) keep) A).
+Proof.
+  unfold run_cmd, do_scan, qix. destruct noscan; cbn [fst snd].
+  - destruct (query I es) as [sel|]; [|intros [= <- _ _]; discriminate].
+    destruct (closure I sel) as [keep|] eqn:Ec; [|intros [= <- _ _]; discriminate].
+    pose proof (closure_correct I sel keep Ec) as Hk.
+    destruct dry; intros [= <- _ <-] _; exists sel, keep; auto.
+  - destruct (scan (I, false) A) as [K cl]. cbn [fst snd].
+    destruct (fail && negb (found A)); [intros [= <- _ _]; discriminate|].
+    destruct (query K es) as [sel|]; [|intros [= <- _ _]; discriminate].
+    destruct (closure K sel) as [keep|] eqn:Ec; [|intros [= <- _ _]; discriminate].
+    pose proof (closure_correct K sel keep Ec) as Hk.
+    destruct dry; intros [= <- _ <-] _; exists sel, keep; auto.
+Qed.
+
+Theorem clean_keeps_selected_and_closure_proof noscan fail es I A o I' A' :
+  run_cmd (CClean false noscan fail es) I A = (o, I', A') -> o_status o = SOk ->
+  exists sel, query (qix noscan I A) es = Ok sel /\
+    forall f, In f A -> reach (qix noscan I A) sel (f_bid f) -> In f A'.
+Proof.
+  intros Hrun Hok. destruct (clean_effect _ _ _ _ _ _ _ _ _ Hrun Hok) as (sel & keep & Hq & Hk & _ & ->).
+  exists sel. split; [exact Hq|]. intros f Hf Hr. apply ar_del_all_In. split; [exact Hf|].
+  rewrite victims_of_In. intros [_ Hn]. apply Hn. now apply Hk.
+Qed.
+
+Theorem clean_deletes_everything_else_proof noscan fail es I A o I' A' :
+  run_cmd (CClean false noscan fail es) I A = (o, I', A') -> o_status o = SOk ->
+  exists sel, query (qix noscan I A) es = Ok sel /\
+    forall f, In f A' <-> In f A /\ (reach (qix noscan I A) sel (f_bid f) \/
+                                     ~ In (f_bid f) (build_ids (qix noscan I A))).
+Proof.
+  intros Hrun Hok. destruct (clean_effect _ _ _ _ _ _ _ _ _ Hrun Hok) as (sel & keep & Hq & Hk & _ & ->).
+  exists sel. split; [exact Hq|]. intros f. rewrite ar_del_all_In, victims_of_In, Hk.
+  split; intros [Hf H]; split; auto.
+  - destruct (in_dec (list_eq_dec N.eq_dec) (f_bid f) (build_ids (qix noscan I A))) as [Hin|Hn]; [|auto].
+    left. destruct (bmem (f_bid f) keep) eqn:E.
+    + apply bmem_In in E. now apply Hk.
+    + apply bmem_false in E. exfalso. apply H. split; [exact Hin|]. intros Hr. apply E. now apply Hk.
+  - intros [Hin Hn]. destruct H as [H|H]; auto.
+Qed.
+
+Theorem dry_run_deletes_nothing_proof c I A :
+  (match c with CClean false _ _ _ => o_status (fst (fst (run_cmd c I A))) <> SOk | _ => True end) ->
+  snd (run_cmd c I A) = A.
+Proof.
+  destruct c as [fail|noscan fail es|dry noscan fail es]; unfold run_cmd, do_scan.
+  - intros _. destruct (scan (I, false) A); reflexivity.
+  - intros _. destruct noscan; cbn [fst snd].
+    + destruct (query I es); reflexivity.
+    + destruct (scan (I, false) A) as [K cl]; cbn [fst snd].
+      destruct (fail && negb (found A)); [reflexivity|]. destruct (query K es); reflexivity.
+  - intros H. destruct noscan; cbn [fst snd] in *.
+    + destruct (query I es) as [sel|]; [|reflexivity].
+      destruct (closure I sel); [|reflexivity]. destruct dry; [reflexivity|]. simpl in H. congruence.
+    + destruct (scan (I, false) A) as [K cl]; cbn [fst snd] in *.
+      destruct (fail && negb (found A)); [reflexivity|].
+      destruct (query K es) as [sel|]; [|reflexivity].
+      destruct (closure K sel); [|reflexivity]. destruct dry; [reflexivity|]. simpl in H. congruence.
+Qed.
+
+(* --dry-run prints exactly what the same clean would delete *)
+Theorem dry_run_lists_victims_proof noscan fail es I A :
+  let d := run_cmd (CClean true noscan fail es) I A in
+  let r := run_cmd (CClean false noscan fail es) I A in
+  o_status (fst (fst d)) = o_status (fst (fst r)) /\
+  (o_status (fst (fst d)) = SOk ->
+   forall f, In f (snd r) <-> In f A /\ ~ In (f_bid f) (o_list (fst (fst d)))).
+Proof.
+  unfold run_cmd, do_scan. destruct noscan; cbn [fst snd].
+  - destruct (query I es) as [sel|]; [|simpl; split; [reflexivity|discriminate]].
+    destruct (closure I sel) as [keep|]; [|simpl; split; [reflexivity|discriminate]].
+    simpl. split; [reflexivity|]. intros _ f. apply ar_del_all_In.
+  - destruct (scan (I, false) A) as [K cl]; cbn [fst snd].
+    destruct (fail && negb (found A)); [simpl; split; [reflexivity|discriminate]|].
+    destruct (query K es) as [sel|]; [|simpl; split; [reflexivity|discriminate]].
+    destruct (closure K sel) as [keep|]; [|simpl; split; [reflexivity|discriminate]].
+    simpl. split; [reflexivity|]. intros _ f. apply ar_del_all_In.
+Qed.
+
+Theorem find_lists_exactly_selected_proof noscan fail es I A o I' A' :
+  run_cmd (CFind noscan fail es) I A = (o, I', A') -> o_status o = SOk ->
+  exists sel, query (qix noscan I A) es = Ok sel /\ o_list o = usort sel /\
+              (forall b, In b (o_list o) <-> In b sel) /\ A' = A.
+Proof.
+  unfold run_cmd, do_scan, qix. destruct noscan; cbn [fst snd].
+  - destruct (query I es) as [sel|]; intros [= <- _ <-]; [|discriminate]. intros _.
+    exists sel. simpl. repeat split; auto; apply usort_In.
+  - destruct (scan (I, false) A) as [K cl]; cbn [fst snd].
+    destruct (fail && negb (found A)); [intros [= <- _ _]; discriminate|].
+    destruct (query K es) as [sel|]; intros [= <- _ <-]; [|discriminate]. intros _.
+    exists sel. simpl. repeat split; auto; apply usort_In.
+Qed.
+
+Theorem never_out_of_fuel_proof c I A : o_status (fst (fst (run_cmd c I A))) <> SFuel.
+Proof.
+  destruct c as [fail|noscan fail es|dry noscan fail es]; unfold run_cmd, do_scan.
+  - destruct (scan (I, false) A) as [K cl]; cbn [fst snd]. destruct (fail && negb (found A)); simpl; discriminate.
+  - destruct noscan; cbn [fst snd].
+    + destruct (query I es); simpl; discriminate.
+    + destruct (scan (I, false) A) as [K cl]; cbn [fst snd].
+      destruct (fail && negb (found A)); [simpl; discriminate|]. destruct (query K es); simpl; discriminate.
+  - destruct noscan; cbn [fst snd].
+    + destruct (query I es) as [sel|]; [|simpl; discriminate].
+      destruct (closure I sel) eqn:E; [|now apply closure_fuel_enough_proof in E].
+      destruct dry; simpl; discriminate.
+    + destruct (scan (I, false) A) as [K cl]; cbn [fst snd].
+      destruct (fail && negb (found A)); [simpl; discriminate|].
+      destruct (query K es) as [sel|]; [|simpl; discriminate].
+      destruct (closure K sel) eqn:E; [|now apply closure_fuel_enough_proof in E].
+      destruct dry; simpl; discriminate.
+Qed.
+
+(* ---------------------------------------------------------------- audit-level references *)
+Inductive dist_reach : list arec -> bid -> Prop :=
+| dr_here deps b sub : In (ARec true b sub) deps -> dist_reach deps b
+| dr_below deps b0 sub b : In (ARec false b0 sub) deps -> dist_reach sub b -> dist_reach deps b.
+
+Lemma arec_ind' (P : arec -> Prop) :
+  (forall d b deps, Forall P deps -> P (ARec d b deps)) -> forall r, P r.
+Proof.
+  intros H. fix IH 1. intros [d b deps]. apply H.
+  induction deps as [|r deps IHd]; constructor; [apply IH|exact IHd].
+Qed.
+
+Lemma rec_refs_spec : forall r b, In b (rec_refs r) <->
+  match r with ARec true b0 _ => b = b0 | ARec false _ sub => dist_reach sub b end.
+Proof.
+  induction r as [dist b0 sub IH] using arec_ind'. intros b. destruct dist; simpl.
+  - intuition.
+  - rewrite Forall_forall in IH. rewrite in_flat_map. split.
+    + intros (r & Hr & Hb). apply (IH r Hr) in Hb. destruct r as [[|] b1 sub1].
+      * subst. eapply dr_here; eauto.
+      * eapply dr_below; eauto.
+    + intros H. inversion H as [deps b1 sub1 Hin|deps b1 sub1 b2 Hin Hd]; subst.
+      * exists (ARec true b sub1). split; [exact Hin|]. apply (IH _ Hin). reflexivity.
+      * exists (ARec false b1 sub1). split; [exact Hin|]. apply (IH _ Hin). exact Hd.
+Qed.
+
+Theorem refs_skip_intermediate_proof au b : In b (audit_refs au) <-> dist_reach (au_deps au) b.
+Proof.
+  unfold audit_refs. rewrite usort_In, in_flat_map. split.
+  - intros (r & Hr & Hb). apply rec_refs_spec in Hb. destruct r as [[|] b1 sub1].
+    + subst. eapply dr_here; eauto.
+    + eapply dr_below; eauto.
+  - intros H. destruct H as [deps b1 sub1 Hin|deps b1 sub1 b2 Hin Hd].
+    + exists (ARec true b1 sub1). split; [exact Hin|]. apply rec_refs_spec. reflexivity.
+    + exists (ARec false b1 sub1). split; [exact Hin|]. apply rec_refs_spec. exact Hd.
+Qed.
+
+(* ---------------------------------------------------------------- packaged statements *)
+Theorem limit_queue_topn_proof asc n its :
+  (0 < n)%nat -> NoDup (map fst its) ->
+  let q := q_run asc n its in
+  length q = Nat.min n (length its) /\ incl q its /\ NoDup (map fst q) /\
+  (forall x y, In x q -> In y its -> ~ In y q -> geb asc (snd x) (snd y) = true) /\
+  StronglySorted (fun a b : qitem => geb asc (snd a) (snd b) = true) q.
+Proof.
+  intros Hn Hnd. destruct (q_run_inv asc n its Hn Hnd) as [H1 H2 H3 H4 _ H6]. repeat split; auto.
+Qed.
+
+Theorem sort_order_total_proof asc :
+  (forall a, geb asc a a = true) /\
+  (forall a b, geb asc a b = true \/ geb asc b a = true) /\
+  (forall a b c, geb asc a b = true -> geb asc b c = true -> geb asc a c = true) /\
+  (forall k, geb asc (Some k) None = true /\ geb asc None (Some k) = false).
+Proof.
+  split; [apply geb_refl|]. split; [apply geb_total|]. split; [apply geb_trans|]. intros k. split; reflexivity.
+Qed.
+
+Lemma Inv_build_ids K A f : Inv K A -> wf A -> In f A ->
+  (~ In (f_bid f) (build_ids K) <-> f_audit f = None).
+Proof.
+  intros [_ R _ _] Hwf Hf. unfold build_ids. rewrite <- find_row_None, R, rowspec_eq, (ar_find_wf A f Hwf Hf).
+  unfold rowof. destruct (f_audit f); split; congruence.
+Qed.
+
+Lemma Inv_NoDup_ids K A : Inv K A -> NoDup (build_ids K).
+Proof.
+  intros [F _ _ _]. unfold build_ids. apply (ssorted_NoDup bid str_cmp str_cmp_refl).
+  now apply rows_sorted_keys.
+Qed.
+
+Theorem clean_exact_on_archive_proof I A0 A fail es o I' A' :
+  Inv I A0 -> wf A0 -> wf A -> compat A0 A ->
+  run_cmd (CClean false false fail es) I A = (o, I', A') -> o_status o = SOk ->
+  let K := fst (scan (ix_empty, false) A) in
+  Inv K A /\ NoDup (build_ids K) /\
+  exists sel, query K es = Ok sel /\
+    forall f, In f A' <-> In f A /\ (f_audit f = None \/ reach K sel (f_bid f)).
+Proof.
+  intros Hinv Hwf0 Hwf Hc Hrun Hok K.
+  assert (Inv K A) as HK by (eapply scan_Inv; [apply Inv_empty|apply wf_nil|exact Hwf|apply compat_nil]).
+  split; [exact HK|]. split; [apply Inv_NoDup_ids with (A := A); exact HK|].
+  destruct (clean_deletes_everything_else_proof _ _ _ _ _ _ _ _ Hrun Hok) as (sel & Hq & Hiff).
+  unfold qix in *. rewrite (scan_canonical I false false A0 A Hinv Hwf0 Hwf Hc) in *. fold K in Hq, Hiff.
+  exists sel. split; [exact Hq|]. intros f. rewrite Hiff. split; intros [Hf H]; split; auto.
+  - destruct H as [H|H]; [auto|]. left. now apply (Inv_build_ids K A f HK Hwf Hf).
+  - destruct H as [H|H]; [|auto]. right. now apply (Inv_build_ids K A f HK Hwf Hf).
+Qed.
